@@ -151,12 +151,20 @@ func genCase(t *rapid.T) Case {
 	ni := rapid.IntRange(1, 3).Draw(t, "nitf")
 	for i := 0; i < ni; i++ {
 		itf := Itf{Name: names.fresh(t, "itf", false)}
-		usedIDs := map[uint32]bool{}
-		freshID := func() uint32 {
+		// ids are unique within a kind (methods, signals and properties are
+		// three separate tables of a meta-object); across kinds they may
+		// coincide, as a property and the signal of its changes usually do
+		usedIDs := map[string]map[uint32]bool{"method": {}, "signal": {}, "prop": {}}
+		var allIDs []uint32
+		freshIDOf := func(kind string) uint32 {
 			for {
 				id := rapid.OneOf(rapid.Uint32Range(100, 140), rapid.Uint32Range(1, 99), rapid.Uint32Range(1, 0xffffffff)).Draw(t, "id")
-				if !usedIDs[id] {
-					usedIDs[id] = true
+				if len(allIDs) > 0 && rapid.IntRange(0, 3).Draw(t, "sharedid") == 0 {
+					id = allIDs[rapid.IntRange(0, len(allIDs)-1).Draw(t, "whichid")]
+				}
+				if !usedIDs[kind][id] {
+					usedIDs[kind][id] = true
+					allIDs = append(allIDs, id)
 					return id
 				}
 			}
@@ -165,7 +173,7 @@ func genCase(t *rapid.T) Case {
 		nm := rapid.IntRange(0, 4).Draw(t, "nmethods")
 		for j := 0; j < nm; j++ {
 			params := drawTuple(t, pool, 0, 4)
-			m := Method{ID: freshID(), Name: an.fresh(t, "method", true), Params: params.Sig(), Ret: "v"}
+			m := Method{ID: freshIDOf("method"), Name: an.fresh(t, "method", true), Params: params.Sig(), Ret: "v"}
 			if rapid.Bool().Draw(t, "hasret") {
 				m.Ret = drawType(t, pool, 2).Sig()
 			}
@@ -187,11 +195,11 @@ func genCase(t *rapid.T) Case {
 		}
 		nsig := rapid.IntRange(0, 3).Draw(t, "nsignals")
 		for j := 0; j < nsig; j++ {
-			itf.Signals = append(itf.Signals, Signal{ID: freshID(), Name: an.fresh(t, "signal", true), Sig: drawTuple(t, pool, 1, 3).Sig()})
+			itf.Signals = append(itf.Signals, Signal{ID: freshIDOf("signal"), Name: an.fresh(t, "signal", true), Sig: drawTuple(t, pool, 1, 3).Sig()})
 		}
 		np := rapid.IntRange(0, 3).Draw(t, "nprops")
 		for j := 0; j < np; j++ {
-			itf.Props = append(itf.Props, Signal{ID: freshID(), Name: an.fresh(t, "prop", true), Sig: drawTuple(t, pool, 1, 2).Sig()})
+			itf.Props = append(itf.Props, Signal{ID: freshIDOf("prop"), Name: an.fresh(t, "prop", true), Sig: drawTuple(t, pool, 1, 2).Sig()})
 		}
 		c.Itfs = append(c.Itfs, itf)
 	}
